@@ -34,7 +34,7 @@ package icmp
 //@   props C06 C03
 //@   ensures ret <==> icmpchain(decoded)
 //@ func (*PacketProcessor).ProcessPacketData
-//@   props C06 C03
+//@   props C06 C03 C16
 //@   observe DecodeLayers, String, Type, Code, Put
 //@   entry row undecodable: [call DecodeLayers(p.parser, data, _) as (e)] when e != nil && ret == e -> exit
 //@   entry row otherframe:  [call DecodeLayers(p.parser, data, _) as (e)] when e == nil && !icmpchain(p.rcvDecoded) && ret == nil -> exit
@@ -57,7 +57,7 @@ package icmp
 //@      && ip.Id == 1 + id0 && 1 <= ip.Id && ip.Id <= 65535 && ip.TTL == f.ttl && ip.Flags == f.flags && ip.Length == f.length && ip.Protocol == f.proto
 //@ pred ethhdr(e *layers.Ethernet, r *scan.Request) = fresh(e) && e.SrcMAC == r.SrcMAC && e.DstMAC == r.DstMAC && e.EthernetType == 2048
 //@ func (*PacketFiller).Fill
-//@   props C05 C11 C17
+//@   props C05 C11 C17 C01
 //@   observe rand.Intn, layers.CreateICMPv4TypeCode, gopacket.SerializeLayers
 //@   entry row vpn:   [call rand.Intn(65535) as (id0) ; call rand.Intn(65535) as (id1) ; call layers.CreateICMPv4TypeCode(f.typ, f.code) as (tc) ; call gopacket.SerializeLayers(packet, bind_opt, bind_ls) as (se)]
 //@                       when f.vpnMode && ret == se && opt.ComputeChecksums && (opt.FixLengths <==> f.length == 0) && len(ls) == 3
@@ -128,3 +128,7 @@ package icmp
 //@   observe NewPacketProcessor
 //@   entry row build: [call NewPacketProcessor("icmp", results, vpnMode) as (pp)] when ret.PacketSource == psrc && isptr(ret.Processor, PacketProcessor) && asptr(ret.Processor, PacketProcessor) == pp
 //@                       && isptr(ret.Resulter, PacketProcessor) && asptr(ret.Resulter, PacketProcessor) == pp -> exit
+
+// plain-text form of a record: printing never panics, whatever the scanned host put into the record (C03 C16)
+//@ func (*ScanResult).String
+//@   props C03 C16
